@@ -119,7 +119,7 @@ def run_wire(ctx, thorough, nrand=None):
     """Runs the wire-level scenarios; returns (cases, scripts_by_run, where, stats): TLC CASE records of
     TraceFetchSched, the scripts, record index -> run id, and counts."""
     ctx.build(ENGINE)
-    res = ctx.tlc("MCStreams", "MCStreams_t.cfg" if thorough else "MCStreams.cfg", workers=4, timeout=1800, coverage=True,
+    res = ctx.tlc("MCStreams", "MCStreams_t.cfg" if thorough else "MCStreams.cfg", workers=1, timeout=1800, coverage=True,
                   label="stream multiplexing design model: NoCrash, OurIdsAreOurs, OpenHasTask, NoStolenStream (deviations disabled)")
     ctx.tlc_ok(res, "MCStreams")
     if res.violated:
@@ -127,7 +127,7 @@ def run_wire(ctx, thorough, nrand=None):
         return [], {}, {}, {}
     ctx.require_coverage(res, ["OurOpen", "Disconnect", "Connect", "RemoteOpen", "RemoteClose", "RemoteEof", "Done"])
     for cfgd, name, inv in (("MCStreams_dev.cfg", "remote-opens-any", "NoCrash"), ("MCStreams_dev2.cfg", "late-closes-new", "NoStolenStream")):
-        dev = ctx.tlc("MCStreams", cfgd, workers=2, timeout=600, coverage=False, count=False,
+        dev = ctx.tlc("MCStreams", cfgd, workers=1, timeout=600, coverage=False, count=False,
                       label=f"sanity: deviation {name} must violate {inv}")
         if dev.violated != inv:
             raise vlib.ToolError(f"sanity run: deviation {name} was not rejected by TLC")
